@@ -461,6 +461,25 @@ def m_vec_clear(e, st, fr, t, a):
     return UNIT
 
 
+def m_vec_retain(e, st, fr, t, a):
+    v = _vec_at(e, st, a[0])
+    if v is None:
+        return NotImplemented
+    ref = peel(e, st, a[0])
+    keep, dropped = [], []
+    snap = st.alloc(VAgg(name='VecSnapshot', fields={('f', i): x for i, x in enumerate(v.extra['items'])}))
+    for i, x in enumerate(v.extra['items']):
+        r = e.sys.call_closure_sync(st, a[1], [VRef(('obj', snap), (('f', i),), False)])
+        b = e.as_int_expr(r)
+        if not isinstance(b, int):
+            raise Unsupported("Vec::retain with a symbolic predicate")
+        (keep if b else dropped).append(x)
+    _store(e, st, ref, VAgg(name='Vec', fields=v.fields, extra={**v.extra, 'items': tuple(keep)}))
+    for x in dropped:
+        e.dropper.drop(st, x, 'Vec::retain removed the element')
+    return UNIT
+
+
 def m_vec_with_capacity(e, st, fr, t, a):
     return VAgg(name='Vec', extra={'items': ()})
 
@@ -543,6 +562,67 @@ def m_hashmap_contains_key(e, st, fr, t, a):
     return VScalar(S._key_repr(e, st, a[1]) in mp.extra['keys'])
 
 
+def _struct_eq(e, st, a, b, depth=0):
+    """structural equality of two fully concrete values (what a derived PartialEq computes); None if not decidable"""
+    a, b = deref_arg(e, st, a), deref_arg(e, st, b)
+    if isinstance(a, VScalar) and isinstance(b, VScalar):
+        x, y = e.as_int_expr(a), e.as_int_expr(b)
+        if isinstance(x, int) and isinstance(y, int):
+            return x == y
+        return None
+    if isinstance(a, VAgg) and isinstance(b, VAgg) and depth < 4:
+        if a.extra and 'oid' in a.extra and b.extra and 'oid' in b.extra:
+            return None
+        if a.name != b.name or a.vname != b.vname or set(a.fields) != set(b.fields):
+            return False if (a.name == b.name and a.vname != b.vname) else None
+        for k in a.fields:
+            r = _struct_eq(e, st, a.fields[k], b.fields[k], depth + 1)
+            if r is None:
+                return None
+            if not r:
+                return False
+        return True
+    return None
+
+
+def m_partial_ne(e, st, fr, t, a):
+    """PartialEq::ne (trait default): !eq - through the type's own eq if hannibal defines one, else structurally"""
+    m = re.match(r'^<(.*) as PartialEq(?:<.*>)?>::ne$', t.func, re.S)
+    if m and hasattr(e, 'sys'):
+        try:
+            fn = e.sys.resolver.resolve(f"<{m.group(1)} as PartialEq>::eq")
+        except Unsupported:
+            fn = None
+        if fn is not None and fn.nargs == 2:
+            st.meta['conts'] = st.meta.get('conts', []) + [('not', (t.dest, t.target))]
+            e.push_call(st, fn, list(a), ret_dest=None, ret_bb=-1, unwind_bb=t.unwind, tag='cont')
+            return None
+    r = _struct_eq(e, st, a[0], a[1])
+    if r is None:
+        return NotImplemented
+    return VScalar(not r)
+
+
+def m_partial_eq(e, st, fr, t, a):
+    r = _struct_eq(e, st, a[0], a[1])
+    if r is None:
+        return NotImplemented
+    return VScalar(r)
+
+
+def m_poll_is_ready(e, st, fr, t, a):
+    p = deref_arg(e, st, a[0])
+    d = e.concrete_int(st, e.discriminant_of(st, p))
+    if d is None:
+        raise Unsupported("Poll::is_ready on a symbolic Poll")
+    return VScalar(d == 0)
+
+
+def m_poll_is_pending(e, st, fr, t, a):
+    r = m_poll_is_ready(e, st, fr, t, a)
+    return VScalar(not r.v)
+
+
 def m_thread_panicking(e, st, fr, t, a):
     """std::thread::panicking(): true while the current task unwinds (MIR cleanup path)"""
     return VScalar(bool(st.unwinding))
@@ -586,6 +666,10 @@ def install(eng: Engine):
     add(Rs + r'or::<', m_res_or)
     add(r'^(core::bool::<impl )?bool>?::then::<', m_bool_then)
     add(r'^(core::bool::<impl )?bool>?::then_some::<', m_bool_then_some)
+    add(r'^<.* as PartialEq(<.*>)?>::ne$', m_partial_ne)
+    add(r'^<.* as PartialEq(<.*>)?>::eq$', m_partial_eq)
+    add(r'^(std::task::)?Poll::<.*>::is_ready$', m_poll_is_ready)
+    add(r'^(std::task::)?Poll::<.*>::is_pending$', m_poll_is_pending)
     add(r'^(std::thread::)?panicking$', m_thread_panicking)
     add(r'^(std::mem::)?take::<', m_mem_take)
     add(r'^(std::mem::)?swap::<', m_mem_swap)
@@ -602,6 +686,7 @@ def install(eng: Engine):
     add(r'^HashMap::<.*>::len$', m_hashmap_len)
     add(r'^HashMap::<.*>::is_empty$', m_hashmap_is_empty)
     add(r'^HashMap::<.*>::contains_key::<', m_hashmap_contains_key)
+    add(r'^Vec::<.*>::retain::<', m_vec_retain)
     add(r'^Vec::<.*>::with_capacity$', m_vec_with_capacity)
     add(r'^Vec::<.*>::swap_remove$', m_vec_swap_remove)
     add(r'^Vec::<.*>::remove$', m_vec_remove)
